@@ -29,67 +29,48 @@ theorem PermInfo.of_sameMembers {i j : Extracted}
     (di : i.cpr.Nodup ∧ i.con.Nodup ∧ i.lic.Nodup) (dj : j.cpr.Nodup ∧ j.con.Nodup ∧ j.lic.Nodup) : PermInfo i j :=
   ⟨hc.perm di.1 dj.1, hn.perm di.2.1 dj.2.1, hl.perm di.2.2 dj.2.2⟩
 
-/-- the merge step is harmless for request `i` on header `header`: no `--merge-copyrights`, or no tie among
-    the lines it merges -/
-def MergeOK (c : HdrCfg) (i : Extracted) (header : Text) : Prop :=
-  c.merge = true → MergeStable (parseLines Generated.endRe (cprInput i header))
-
-theorem MergeOK.of_no_merge {c : HdrCfg} (h : c.merge = false) (i : Extracted) (header : Text) : MergeOK c i header :=
-  fun hm => by rw [h] at hm; cases hm
-
-theorem MergeOK.perm {c : HdrCfg} {i j : Extracted} {header : Text} (h : PermInfo i j) (hm : MergeOK c i header) :
-    MergeOK c j header :=
-  fun hc => mergeStable_perm ((cprInput_perm h.cpr header).filterMap _) (hm hc)
-
 /-- `create_header`: requests that are orders of the same sets give the same header -/
-theorem createHeader_order (c : HdrCfg) {i j : Extracted} (header : Text) (h : PermInfo i j)
-    (hm : MergeOK c i header) : createHeader c i header = createHeader c j header :=
-  createHeader_perm c header h.cpr h.con h.lic fun hc => mergeLines_perm (cprInput_perm h.cpr header) (hm hc)
+theorem createHeader_order (c : HdrCfg) {i j : Extracted} (header : Text) (h : PermInfo i j) :
+    createHeader c i header = createHeader c j header :=
+  createHeader_perm c header h.cpr h.con h.lic
 
-theorem findAndReplaceHeader_order (c : HdrCfg) {i j : Extracted} (t : Text) (h : PermInfo i j)
-    (hm : MergeOK c i (replaceSections c t).2.1) : findAndReplaceHeader c i t = findAndReplaceHeader c j t := by
-  rw [findAndReplace_eq, findAndReplace_eq, createHeader_order c _ h hm]
+theorem findAndReplaceHeader_order (c : HdrCfg) {i j : Extracted} (t : Text) (h : PermInfo i j) :
+    findAndReplaceHeader c i t = findAndReplaceHeader c j t := by
+  rw [findAndReplace_eq, findAndReplace_eq, createHeader_order c _ h]
 
-theorem addNewHeader_order (c : HdrCfg) {i j : Extracted} (t : Text) (h : PermInfo i j)
-    (hm : MergeOK c i []) : addNewHeader c i t = addNewHeader c j t := by
+theorem addNewHeader_order (c : HdrCfg) {i j : Extracted} (t : Text) (h : PermInfo i j) :
+    addNewHeader c i t = addNewHeader c j t := by
   unfold addNewHeader
-  simp only [createHeader_order c [] h hm]
+  simp only [createHeader_order c [] h]
 
 /-- the header block `add_header_to_file` hands to `create_header`: what the locator finds in the text with
     normalised line endings when replacing, none with `--no-replace` -/
 def headerSeen (c : HdrCfg) (replace : Bool) (text : Text) : Text :=
   if replace then (replaceSections c (Py.replace text (detectLineEnding text) ['\n'])).2.1 else []
 
-theorem annotateText_order (c : HdrCfg) (replace skip : Bool) {i j : Extracted} (text : Text) (h : PermInfo i j)
-    (hm : MergeOK c i (headerSeen c replace text)) :
+theorem annotateText_order (c : HdrCfg) (replace skip : Bool) {i j : Extracted} (text : Text) (h : PermInfo i j) :
     annotateText c replace skip i text = annotateText c replace skip j text := by
   unfold annotateText
   cases replace with
-  | true =>
-    simp only [headerSeen, if_true] at hm
-    simp only [if_true, findAndReplaceHeader_order c _ h hm]
-  | false =>
-    simp only [headerSeen, Bool.false_eq_true, if_false] at hm
-    simp only [Bool.false_eq_true, if_false, addNewHeader_order c _ h hm]
+  | true => simp only [if_true, findAndReplaceHeader_order c _ h]
+  | false => simp only [Bool.false_eq_true, if_false, addNewHeader_order c _ h]
 
 /-- the text of a file after a leading byte order mark -/
 def afterBom : Text → Text
   | ch :: rest => if ch == bomChar then rest else ch :: rest
   | [] => []
 
-theorem annotateFile_order (c : HdrCfg) (replace skip : Bool) {i j : Extracted} (text : Text) (h : PermInfo i j)
-    (hm : MergeOK c i (headerSeen c replace (afterBom text))) :
+theorem annotateFile_order (c : HdrCfg) (replace skip : Bool) {i j : Extracted} (text : Text) (h : PermInfo i j) :
     annotateFile c replace skip i text = annotateFile c replace skip j text := by
   unfold annotateFile
   cases text with
-  | nil => exact annotateText_order c replace skip [] h hm
+  | nil => exact annotateText_order c replace skip [] h
   | cons ch rest =>
-    simp only [afterBom] at hm
     by_cases hb : (ch == bomChar) = true
-    · simp only [hb, if_true] at hm ⊢
-      rw [annotateText_order c replace skip rest h hm]
-    · simp only [hb, Bool.false_eq_true, if_false] at hm ⊢
-      exact annotateText_order c replace skip _ h hm
+    · simp only [hb, if_true]
+      rw [annotateText_order c replace skip rest h]
+    · simp only [hb, Bool.false_eq_true, if_false]
+      exact annotateText_order c replace skip _ h
 
 /-! ### several runs, each with its own order -/
 
@@ -111,11 +92,9 @@ theorem runsSeq_replicate (c : HdrCfg) (i : Extracted) : ∀ (n : Nat) (t : Text
     | error e => rfl
 
 /-- when the run with request `i` writes `o` from `t` and leaves `o` alone, so does every sequence of at least
-    one run whose requests are orders of `i` — provided each run's `create_header` call is order-independent
-    (`hm1` for the header met in `t`, `hm2` for the header met in `o`) -/
+    one run whose requests are orders of `i` -/
 theorem runsSeq_fix (c : HdrCfg) {i : Extracted} {t o : Text}
     (h1 : findAndReplaceHeader c i t = .ok o) (h2 : findAndReplaceHeader c i o = .ok o)
-    (hm1 : MergeOK c i (replaceSections c t).2.1) (hm2 : MergeOK c i (replaceSections c o).2.1)
     (j : Extracted) (js : List Extracted) (hj : PermInfo i j) (hjs : ∀ k ∈ js, PermInfo i k) :
     runsSeq c (j :: js) t = .ok o := by
   have hfix : ∀ js : List Extracted, (∀ k ∈ js, PermInfo i k) → runsSeq c js o = .ok o := by
@@ -124,9 +103,9 @@ theorem runsSeq_fix (c : HdrCfg) {i : Extracted} {t o : Text}
     | nil => intro _; rfl
     | cons k ks ih =>
       intro hk
-      simp only [runsSeq, ← findAndReplaceHeader_order c o (hk k List.mem_cons_self) hm2, h2]
+      simp only [runsSeq, ← findAndReplaceHeader_order c o (hk k List.mem_cons_self), h2]
       exact ih fun k' hk' => hk k' (List.mem_cons_of_mem _ hk')
-  simp only [runsSeq, ← findAndReplaceHeader_order c t hj hm1, h1]
+  simp only [runsSeq, ← findAndReplaceHeader_order c t hj, h1]
   exact hfix js hjs
 
 end C10Order
